@@ -751,6 +751,9 @@ func psSearch(start *ssa.BasicBlock, cut []Edge, blocked func(*ssa.BasicBlock) b
 		if blocked != nil && blocked(b) {
 			continue
 		}
+		if blockNeverReturns(b) {
+			continue // log.Fatal*/os.Exit/panic: control does not continue past this block
+		}
 		// conditions defined in this block are recomputed: forget them
 		known := n.known
 		for v := range known {
@@ -1027,6 +1030,23 @@ func cellSharedByClosure(a *ssa.Alloc, fn *ssa.Function) bool {
 					return true
 				}
 				q = append(q, x.Succs...)
+			}
+		}
+	}
+	return false
+}
+
+// blockNeverReturns: the block contains a call that terminates the process
+// (log.Fatal*, os.Exit, ...) or ends in a panic; its CFG successors are not
+// really reachable through it.
+func blockNeverReturns(b *ssa.BasicBlock) bool {
+	for _, in := range b.Instrs {
+		switch x := in.(type) {
+		case *ssa.Panic:
+			return true
+		case *ssa.Call:
+			if exitCallees[calleeName(x)] {
+				return true
 			}
 		}
 	}
